@@ -1,9 +1,13 @@
 package main
 
 import (
+	"context"
+	"fmt"
+	"net"
 	"time"
 
 	"github.com/enfein/mieru/v3/pkg/cipher"
+	"github.com/enfein/mieru/v3/pkg/protocol"
 )
 
 func init() {
@@ -16,4 +20,63 @@ func init() {
 	z("DefaultKeyLen", int64(cipher.DefaultKeyLen))
 	z("NoncePrefixLenForUserHint", int64(cipher.NoncePrefixLenForUserHint))
 	z("NonceSuffixLenForUserHint", int64(cipher.NonceSuffixLenForUserHint))
+	z("packetUnderlayScheduleWindow_ns", probePacketUnderlayWindow())
 }
+
+// probePacketUnderlayWindow measures, on the compiled code, for how long a client PacketUnderlay made by the real
+// constructor keeps taking new sessions (all of which are opened with the one key it was created with): the distance
+// between its creation and its scheduler's disable time. This binary runs on the real clock, so one measurement only
+// brackets the window (disable - after <= window <= disable - before, monotonic readings); the brackets of many
+// constructions are intersected and the window is the one whole millisecond in the intersection. The C08 virtual-time
+// driver (c08t, K case) measures the same quantity exactly and compares it with this constant to the nanosecond.
+// An underlay that never stops taking sessions is reported as 2^62 ns.
+func probePacketUnderlayWindow() int64 {
+	block, err := cipher.BlockCipherFromPassword(cipher.HashPassword([]byte("probe-password"), []byte("probe")), true)
+	if err != nil {
+		panic(err)
+	}
+	lo, hi := int64(-1<<62), int64(1<<62)
+	for i := 0; i < 400; i++ {
+		before := time.Now()
+		u, err := protocol.NewPacketUnderlay(context.Background(), nullPacketDialer{}, nil, "udp", "192.0.2.1:8964", 1400, block, nil)
+		after := time.Now()
+		if err != nil {
+			panic(err)
+		}
+		dt := u.Scheduler().DisableTime()
+		u.Close()
+		if dt.IsZero() {
+			return 1 << 62
+		}
+		if l := int64(dt.Sub(after)); l > lo {
+			lo = l
+		}
+		if h := int64(dt.Sub(before)); h < hi {
+			hi = h
+		}
+		const ms = int64(time.Millisecond)
+		first := (lo + ms - 1) / ms * ms // smallest whole millisecond >= lo (lo > 0 in practice)
+		if lo <= hi && first <= hi && first+ms > hi && i >= 20 {
+			return first
+		}
+	}
+	panic(fmt.Sprintf("cannot bracket the scheduling window of a client PacketUnderlay to one millisecond: [%d, %d] ns", lo, hi))
+}
+
+type nullPacketDialer struct{}
+
+func (nullPacketDialer) ListenPacket(ctx context.Context, network, laddr, raddr string) (net.PacketConn, error) {
+	return &nullPacketConn{}, nil
+}
+
+type nullPacketConn struct{}
+
+func (*nullPacketConn) ReadFrom(p []byte) (int, net.Addr, error)  { return 0, nil, net.ErrClosed }
+func (*nullPacketConn) WriteTo(p []byte, a net.Addr) (int, error) { return len(p), nil }
+func (*nullPacketConn) Close() error                              { return nil }
+func (*nullPacketConn) LocalAddr() net.Addr {
+	return &net.UDPAddr{IP: net.IPv4(10, 0, 0, 2), Port: 40000}
+}
+func (*nullPacketConn) SetDeadline(t time.Time) error      { return nil }
+func (*nullPacketConn) SetReadDeadline(t time.Time) error  { return nil }
+func (*nullPacketConn) SetWriteDeadline(t time.Time) error { return nil }
